@@ -551,6 +551,121 @@ fn graph_case(cx: &mut Ctx, rng: &mut Rng) {
     }
 }
 
+/// One pooling / convolution configuration along the H axis (the W axis is fixed to a trivial
+/// 1-wide window), as a single-op case.
+fn pool_case(rng: &mut Rng, op: &str, in_size: usize, k: usize, s: usize, ps: usize, pe: usize, d: usize, ceil: bool) -> Case {
+    let w = 2usize;
+    let attrs = |c: Case| {
+        let mut c = c
+            .ais("kernel_shape", &[k as i64, 1])
+            .ais("strides", &[s as i64, 1])
+            .ais("pads", &[ps as i64, 0, pe as i64, 0]);
+        if d != 1 {
+            c = c.ais("dilations", &[d as i64, 1]);
+        }
+        if ceil {
+            c = c.ai("ceil_mode", 1);
+        }
+        c
+    };
+    match op {
+        "Conv" => attrs(Case::new("Conv", vec![f(rng, &[1, 1, in_size, w]), f(rng, &[2, 1, k, 1])])),
+        _ => attrs(Case::new(op, vec![f(rng, &[1, 1, in_size, w])])),
+    }
+}
+
+/// `poolsize` line: the inferred and the executed output size along the swept axis for one
+/// configuration, diffed with `poolInferSize` / `poolExecSize` of the Lean model.
+fn pool_line(cx: &mut Ctx, case: &Case, op: &str, p: (usize, usize, usize, usize, usize, usize, bool)) {
+    let (in_size, k, st, ps, pe, d, ceil) = p;
+    let req = format!("poolsize op={op} in={in_size} k={k} s={st} d={d} ps={ps} pe={pe} ceil={}", ceil as u8);
+    let res = hcommon::catch(|| {
+        let l = load_case(case)?;
+        let sym_inputs: Vec<Option<SymTensor>> =
+            case.inputs.iter().map(|i| i.as_ref().map(|i| SymTensor::from_fixed_shape(&i.shape))).collect();
+        let mut inferred = None;
+        for (_, n) in l.model.verif_graph().iter() {
+            if let rten::verif::Node::Operator(o) = n {
+                let mut sg = SymbolGen::new();
+                inferred = Some(o.operator().as_infer_shapes().unwrap().infer_shapes(InferShapesContext::new(&sym_inputs), &mut sg));
+            }
+        }
+        let inf = match inferred {
+            Some(Ok(ts)) => ts[0]
+                .shape()
+                .and_then(|mut sh| sh.nth(2))
+                .and_then(|e| e.eval(&SymbolMap::new(&[])).ok())
+                .map(|v| v.to_string())
+                .unwrap_or_else(|| "?".into()),
+            _ => "err".to_string(),
+        };
+        let exec = match run_case(&l, case) {
+            Ok(outs) => concrete(&outs[0]).0.get(2).map(|d| d.to_string()).unwrap_or_else(|| "?".into()),
+            Err(_) => "err".to_string(),
+        };
+        Ok::<_, String>(format!("infer={inf} exec={exec}"))
+    });
+    match res {
+        Ok(Ok(ans)) => {
+            cx.out.bucket("poolsize_lines");
+            cx.out.case(&req, &ans, None, true);
+        }
+        _ => cx.out.bucket("poolsize_error"),
+    }
+}
+
+/// Random convolution / pooling cases over the whole attribute space: 1-D and 2-D, explicit
+/// asymmetric pads or `auto_pad`, strides, dilations (Conv), ceil_mode (pools), ConvTranspose
+/// with output_padding.
+fn conv_pool_cases(rng: &mut Rng) -> Vec<Case> {
+    let mut v = vec![];
+    for op in ["MaxPool", "AveragePool", "Conv", "ConvTranspose"] {
+        let two_d = rng.chance(2, 3);
+        let nd = if two_d { 2 } else { 1 };
+        let pick = |rng: &mut Rng, lo: i64, hi: i64| -> Vec<i64> { (0..nd).map(|_| rng.range_i64(lo, hi)).collect() };
+        let ins: Vec<usize> = (0..nd).map(|_| 1 + rng.usize_below(12)).collect();
+        let ks = pick(rng, 1, 4);
+        let ss = pick(rng, 1, 3);
+        let ds = pick(rng, 1, 2);
+        let pads: Vec<i64> = (0..2 * nd).map(|_| rng.range_i64(0, 2)).collect();
+        let (cin, cout) = (2usize, 1 + rng.usize_below(2));
+        let mut xs = vec![1 + rng.usize_below(2), cin];
+        xs.extend(ins.iter().copied());
+        let mut c = match op {
+            "Conv" => {
+                let mut ws = vec![cout, cin];
+                ws.extend(ks.iter().map(|&k| k as usize));
+                Case::new("Conv", vec![f(rng, &xs), f(rng, &ws), if rng.chance(1, 2) { f(rng, &[cout]) } else { None }])
+            }
+            "ConvTranspose" => {
+                let mut ws = vec![cin, cout];
+                ws.extend(ks.iter().map(|&k| k as usize));
+                Case::new("ConvTranspose", vec![f(rng, &xs), f(rng, &ws)])
+            }
+            op => Case::new(op, vec![f(rng, &xs)]),
+        };
+        c = c.ais("kernel_shape", &ks).ais("strides", &ss);
+        match rng.below(5) {
+            0 => c = c.astr("auto_pad", "SAME_UPPER"),
+            1 => c = c.astr("auto_pad", "SAME_LOWER"),
+            2 => c = c.astr("auto_pad", "VALID"),
+            _ => c = c.ais("pads", &pads),
+        }
+        if matches!(op, "Conv" | "ConvTranspose") && rng.chance(1, 2) {
+            c = c.ais("dilations", &ds);
+        }
+        if matches!(op, "MaxPool" | "AveragePool") && rng.chance(1, 2) {
+            c = c.ai("ceil_mode", 1);
+        }
+        if op == "ConvTranspose" && rng.chance(1, 3) {
+            let op_: Vec<i64> = ss.iter().map(|&s| rng.range_i64(0, s - 1)).collect();
+            c = c.ais("output_padding", &op_);
+        }
+        v.push(c);
+    }
+    v
+}
+
 fn small_ints(rng: &mut Rng, n: usize) -> Vec<i64> {
     (0..n).map(|_| *rng.pick(&[-3i64, -2, -1, 0, 0, 1, 1, 2, 3, 4])).collect()
 }
@@ -722,6 +837,42 @@ fn run(args: &Args) {
             }
         };
         one_case_focus(&mut cx, &mut rng, &case, 50, Some(focus));
+    }
+    // Bounded exhaustive sweep of the conv / pool output-size arithmetic along one axis:
+    // in <= 12, kernel <= 4, stride <= 3, start / end pads <= 2, ceil_mode 0/1 (pools),
+    // dilation <= 2 (Conv); fixed and symbolic input dims alternate.
+    let mut n_sweep = 0usize;
+    for in_size in 1..=12usize {
+        for k in 1..=4usize {
+            for st in 1..=3usize {
+                for ps in 0..=2usize {
+                    for pe in 0..=2usize {
+                        for ceil in [false, true] {
+                            for op in ["MaxPool", "AveragePool"] {
+                                let c = pool_case(&mut rng, op, in_size, k, st, ps, pe, 1, ceil);
+                                n_sweep += 1;
+                                one_case(&mut cx, &mut rng, &c, if n_sweep % 2 == 0 { 0 } else { 90 });
+                                pool_line(&mut cx, &c, op, (in_size, k, st, ps, pe, 1, ceil));
+                            }
+                        }
+                        if args.thorough || (in_size + k + st + ps + pe) % 3 == 0 {
+                            for d in 1..=2usize {
+                                let c = pool_case(&mut rng, "Conv", in_size, k, st, ps, pe, d, false);
+                                n_sweep += 1;
+                                one_case(&mut cx, &mut rng, &c, if n_sweep % 2 == 0 { 0 } else { 90 });
+                                pool_line(&mut cx, &c, "Conv", (in_size, k, st, ps, pe, d, false));
+                            }
+                        }
+                    }
+                }
+            }
+        }
+    }
+    let cpreps = if args.thorough { 20_000 } else { 2_000 };
+    for rep in 0..cpreps {
+        for case in &conv_pool_cases(&mut rng) {
+            one_case(&mut cx, &mut rng, case, [0u64, 50, 90][rep % 3]);
+        }
     }
     let greps = if args.thorough { 3000 } else { 300 };
     for _ in 0..greps {
